@@ -1,7 +1,7 @@
 (** C17 — the property as a Prop over model states / observed traces, and as boolean checkers. *)
 From Coq Require Import List Bool Arith ZArith Lia.
 Import ListNotations.
-Require Import Nib.C17.AnteFacts Nib.C17.MsgTree Nib.C17.Model.
+Require Import Nib.C17.AnteFacts Nib.C17.CarrierTree Nib.C17.Model.
 Local Open Scope Z_scope.
 
 (** every validator's commission rate is at most 25 % *)
